@@ -2,7 +2,7 @@
    the Go runtime iterates the maps involved. *)
 From Coq Require Import List NArith ZArith Bool Lia.
 From Gen Require C01.
-From C01 Require Import Str Model Model2.
+From C01 Require Import Str Model Spec Model2.
 Import ListNotations.
 Local Open Scope N_scope.
 
@@ -176,4 +176,24 @@ Theorem ident_day_from_font f :
 Proof.
   unfold M_write_name, name_day. cbn [n_ident_day].
   destruct (f_mtime f); [discriminate|]. destruct (f_ctime f); [discriminate|]. cbn. discriminate.
+Qed.
+
+Lemma write_function_of_value_lemma :
+  forall (F : font) (enc_mac enc_win : str -> str) (ident : str),
+    has_timestamp F = true ->
+    (forall apple1 apple2 ms1 ms2 win_enc,
+        order_of Gen.C01.c01_name_appleBCP apple1 -> order_of Gen.C01.c01_name_appleBCP apple2 ->
+        order_of Gen.C01.c01_name_msBCP ms1 -> order_of Gen.C01.c01_name_msBCP ms2 ->
+        let nt := ntable_of (M_write_name F) ident in
+        M_name_encode enc_mac enc_win apple1 ms1 win_enc (fst (write_name_tables nt)) (snd (write_name_tables nt))
+        = M_name_encode enc_mac enc_win apple2 ms2 win_enc (fst (write_name_tables nt)) (snd (write_name_tables nt)))
+    /\ (forall d extra1 extra2,
+        NoDup (map fst extra1) -> NoDup (map fst extra2) -> (forall e, In e extra1 <-> In e extra2) ->
+        forall tag, tm_get tag (M_table_map d extra1) = tm_get tag (M_table_map d extra2))
+    /\ n_ident_day (M_write_name F) <> None.
+Proof.
+  intros F enc_mac enc_win ident Ht. split; [|split].
+  - intros. apply name_encode_order_independent; assumption.
+  - exact table_map_order_independent.
+  - apply ident_day_from_font. exact Ht.
 Qed.
